@@ -1090,7 +1090,7 @@ func writeGetDTypeFunc(w *formatting.IndentedWriter, ns *dsl.Namespace) {
 						nt, isNamedType := td.(*dsl.NamedType)
 						if isNamedType {
 							// This is a named type defining a union, so we will use the named type's name instead
-							unionClassName = td.GetDefinitionMeta().Name
+							unionClassName = common.TypeIdentifierName(td.GetDefinitionMeta().Name)
 						}
 						if currentNamespace != callingNamespace {
 							unionClassName = fmt.Sprintf("%s.%s", common.NamespaceIdentifierName(currentNamespace), unionClassName)
